@@ -406,6 +406,26 @@ impl World {
         ).map_err(|e| e.to_string())
     }
 
+    /// Maps the parent's class name to another name towards the child.
+    pub fn child_map(
+        &mut self, parent: &str, child: &str, in_parent: &str,
+        for_child: &str,
+    ) -> Result<(), String> {
+        let req = UpdateChildRequest {
+            id_cert: None, resources: None, suspend: None,
+            resource_class_name_mapping: Some(
+                krill::api::admin::ResourceClassNameMapping {
+                    name_in_parent: in_parent.into(),
+                    name_for_child: for_child.into(),
+                }
+            ),
+        };
+        self.env.krill.ca_manager().ca_child_update(
+            &ca_handle(parent), ChildHandle::from_str(child).unwrap(), req,
+            &self.actor, &self.env.krill
+        ).map_err(|e| e.to_string())
+    }
+
     pub fn child_remove(
         &mut self, parent: &str, child: &str
     ) -> Result<(), String> {
@@ -1632,6 +1652,7 @@ impl World {
         }
         // the manifest numbers in the CAs' own object stores
         let mut store_numbers: HashMap<String, i64> = HashMap::new();
+        let mut store_next: HashMap<String, i64> = HashMap::new();
         if let Ok(store) = krill.storage().open(
             krill::constants::CA_OBJECTS_NS
         ) {
@@ -1645,11 +1666,24 @@ impl World {
                 for class in classes.values() {
                     for field in ["current_set", "staging_set", "old_set"] {
                         let set = &class["keys"][field];
+                        // (the last segment of the URI: the name field of
+                        // a certificate issued by the trust anchor lacks
+                        // its first character)
                         let Some(cert_name)
-                            = set["signing_cert"]["name"].as_str()
+                            = set["signing_cert"]["uri"].as_str()
+                                .and_then(|u| u.rsplit('/').next())
                         else { continue };
                         let key_id = cert_name.trim_end_matches(".cer");
                         let kname = self.key_name(key_id);
+                        let next = &set["revision"]["next_update"];
+                        let next = next.as_i64().or_else(|| {
+                            next.as_str().and_then(|s| {
+                                chrono::DateTime::parse_from_rfc3339(s).ok()
+                            }).map(|t| t.timestamp())
+                        });
+                        if let Some(t) = next {
+                            store_next.insert(kname.clone(), t);
+                        }
                         if let Some(n) = set["revision"]["number"].as_i64() {
                             store_numbers.insert(kname, n);
                         }
@@ -1680,6 +1714,7 @@ impl World {
             keys.insert(kname.clone(), json!({
                 "ca": facts.ca, "mft": facts.mft.unwrap_or(-1),
                 "store": store_numbers.get(&kname).copied().unwrap_or(-1),
+                "store_next": store_next.get(&kname).copied().unwrap_or(-1),
                 "crl": facts.crl_number.unwrap_or(-1),
                 "mft_this": facts.mft_this, "mft_next": facts.mft_next,
                 "objs": facts.objs, "roas": facts.roas, "revoked": revoked,
@@ -1824,6 +1859,13 @@ pub fn apply_action(w: &mut World, action: &Value) -> Result<Value, String> {
             )?;
             Ok(json!("ok"))
         }
+        "ChildMap" => {
+            w.child_map(
+                str_arg(action, "p"), str_arg(action, "c"),
+                str_arg(action, "in_parent"), str_arg(action, "for_child"),
+            )?;
+            Ok(json!("ok"))
+        }
         "RtrAdd" => {
             w.rtr_update(str_arg(action, "c"), &list_arg(action, "r"), true)?;
             Ok(json!("ok"))
@@ -1882,7 +1924,7 @@ pub fn apply_action(w: &mut World, action: &Value) -> Result<Value, String> {
             let done = w.pump(300)?;
             Ok(json!({"tasks": done}))
         }
-        "Republish" | "RepublishByMargin" => {
+        "Republish" | "RepublishByMargin" | "RepublishByStoreMargin" => {
             w.run_task(Task::RepublishIfNeeded)?;
             Ok(json!("ok"))
         }
@@ -1937,7 +1979,8 @@ pub fn apply_action(w: &mut World, action: &Value) -> Result<Value, String> {
             Ok(json!("ok"))
         }
         "Settled" | "NotSettled" | "Mark" | "ExpectSame" | "ExpectReissued"
-        | "ExpectRenewed" | "ExpectByMargin" => Ok(json!("ok")),
+        | "ExpectRenewed" | "ExpectByMargin" | "ExpectStoreByMargin"
+        => Ok(json!("ok")),
         "Restart" | "RestartDue" | "RestartNormal" | "RestartMargin" => {
             // a restart, possibly with other timing values: margins larger
             // than the lifetimes make everything due at the next
